@@ -178,3 +178,44 @@ cfn("sparse_image.c:sparse_connectedpixels_splat",
                "forall(1, dset_cnt(S) + 1, lambda q: And_(defined(T, q), 1 <= T[q], T[q] <= np))", _cells("nnz", "dset_cnt(S)")]},
     ensures=["0 <= result"],
     props=["C11", "C20"])
+
+# ---------------------------------------------------------------- mask -> coordinate lists through per-row counts and their prefix sums
+# CR(r) = number of mask pixels in row r (an opaque function of the row, revealed at the row being processed);
+# cnt(n, r) = number of mask pixels in row r at columns < n.
+MC_LOC = {"cnt": "lambda n, r: countp('mc_cnt', n, lambda q, rr: msk[rr*nf + q] != 0, [r])",
+          "M": "macro_fn('mc_M', lambda r, c: ite(msk[r*nf + c] != 0, 1, 0), 2)",
+          "CR": "opaque_fn('mc_CR', lambda r: countp('mc_cnt', nf, lambda q, rr: msk[rr*nf + q] != 0, [r]), 'int')"}
+MC_NROW_DEF = "forall(0, ns, lambda r: defined(nrow, r))"
+MC_ROWS = "forall(0, %s, lambda r: And_(defined(nrow, r), nrow[r] == CR(r), 0 <= nrow[r], nrow[r] <= nf))"
+MC_MONO = "forall2(0, %s, lambda a, b: implies(a <= b, nrow[a] <= nrow[b]))"
+MC_START = "ite(mi == 0, 0, nrow[max_(mi - 1, 0)])"
+# every stored entry is a mask pixel inside the image; entries are strictly sorted row-major (row, then column)
+# M(r, c) == 1 iff msk[r*nf + c] != 0: a spec function with one quantified definition keeps the product out of the quantified invariants
+MC_VALID = "forall(0, %s, lambda t: And_(defined(i, t), defined(j, t), i[t] < ns, j[t] < nf, M(i[t], j[t]) == 1))"
+MC_SORTED = "forall(1, %s, lambda t: Or_(i[t-1] < i[t], And_(i[t-1] == i[t], j[t-1] < j[t])))"
+cfn("sparse_image.c:mask_to_coo",
+    lens={"msk": "ns*nf", "i": "nnz", "j": "nnz", "nrow": "ns"}, defined={"i": False, "j": False, "nrow": False},
+    assigns=["i", "j", "nrow"], locals=MC_LOC,
+    requires=["ns*nf <= INT_MAX"],
+    wellformed="msk has ns*nf entries, i and j have nnz entries, the work array has ns entries; any ns, nf, nnz (out-of-range values are refused)",
+    loops={0: [MC_ROWS % "mi"],
+           1: ["0 <= mi", "mi < ns", "defined(nrow, mi)", "nrow[mi] == cnt(mj, mi)", MC_ROWS % "mi"],
+           2: [MC_NROW_DEF, "1 <= mi", "mi <= ns",
+               "forall(mi, ns, lambda r: And_(nrow[r] == CR(r), 0 <= nrow[r], nrow[r] <= nf))",
+               "nrow[0] == CR(0)", "0 <= nrow[0]",
+               "forall(1, mi, lambda r: nrow[r] == nrow[r-1] + CR(r))",
+               "forall(0, mi, lambda r: And_(0 <= nrow[r], nrow[r] <= (r + 1)*nf))", MC_MONO % "mi"],
+           3: [MC_NROW_DEF] + T("C14", MC_VALID % MC_START, MC_SORTED % MC_START, "forall(0, %s, lambda t: i[t] < mi)" % MC_START),
+           4: [MC_NROW_DEF, "0 <= mi", "mi < ns", "isdef('idx')", "0 <= mj", "idx == %s + cnt(mj, mi)" % MC_START,
+               "nrow[mi] == %s + cnt(nf, mi)" % MC_START, "nrow[mi] <= nnz", "0 <= %s" % MC_START]
+              + T("C14", MC_VALID % "idx", MC_SORTED % "idx", "forall(0, %s, lambda t: i[t] < mi)" % MC_START,
+                  "forall(%s, idx, lambda t: And_(i[t] == mi, j[t] < mj))" % MC_START)},
+    asserts={0: ["nrow[mi] == CR(mi)", "0 <= nrow[mi]", "nrow[mi] <= nf"],
+             2: ["nrow[mi] == nrow[mi-1] + CR(mi)", "nrow[mi-1] <= nrow[mi]"],
+             "before^:i[idx]=": T("C14", "M(mi, mj) == 1"),
+             "before^:if(mi==0)": ["CR(mi) == cnt(nf, mi)", "nrow[mi] == %s + CR(mi)" % MC_START, "nrow[mi] <= nrow[ns-1]", "0 <= %s" % MC_START]},
+    ensures=["0 <= result", "result <= 4"]
+            + T("C14", "implies(result == 0, And_(%s, %s))" % (MC_VALID % "nnz", MC_SORTED % "nnz"),
+                "implies(result == 0, nnz == nrow[ns - 1])",
+                "(result == 1) == Or_(ns < 1, ns > 65535)"),
+    props=["C14", "C20"])
